@@ -2,6 +2,8 @@
 
 package nfdc
 
+import "reflect"
+
 // VerifDrain takes every command currently queued for the management goroutine (which the
 // harness never starts) without blocking.
 func (m *NfdMgmtThread) VerifDrain() []NfdMgmtCmd {
@@ -14,4 +16,14 @@ func (m *NfdMgmtThread) VerifDrain() []NfdMgmtCmd {
 			return out
 		}
 	}
+}
+
+// VerifFieldSignature: see table.VerifFieldSignature.
+func VerifFieldSignature() string {
+	t := reflect.TypeOf(NfdMgmtThread{})
+	out := "NfdMgmtThread{"
+	for i := 0; i < t.NumField(); i++ {
+		out += t.Field(i).Name + ":" + t.Field(i).Type.String() + ";"
+	}
+	return out + "}"
 }
